@@ -96,6 +96,15 @@ type gen struct {
 	budget int
 	scope  []int // indices of the variables in scope, outermost first (a later one shadows an earlier one of the same name)
 	here   []map[string]bool // names declared in the enclosing blocks, innermost last (a `:=` must not re-declare one of the innermost)
+	pre    []*stmt           // statements g.stmt wants in front of the statement it returns (the caller places them)
+}
+
+// one statement, preceded by whatever it asked to have in front of it
+func (g *gen) stmts(nest int, inIf bool, inLoop bool) []*stmt {
+	s := g.stmt(nest, inIf, inLoop)
+	res := append(g.pre, s)
+	g.pre = nil
+	return res
 }
 
 // visible: for every name in scope the index Go resolves it to (the innermost declaration)
@@ -196,7 +205,7 @@ func (g *gen) block(nest int, inIf bool, inLoop bool) []*stmt {
 		}
 	}
 	for i := 0; i < n && g.budget > 0; i++ {
-		res = append(res, g.stmt(nest, inIf, inLoop))
+		res = append(res, g.stmts(nest, inIf, inLoop)...)
 	}
 	if len(res) == 0 {
 		g.budget--
@@ -312,6 +321,36 @@ func (g *gen) stmt(nest int, inIf bool, inLoop bool) *stmt {
 		g.p.tags["define"] = true
 		return st
 	}
+	if nest < 2 && g.r.Chance(1, 70) {
+		// a long switch: 11..13 case clauses (+ default now and then), distinct constants, and in front of
+		// it an assignment that sends the tag to one of the clauses with index >= 10 (the jump table's
+		// two-digit entries are taken, not only written)
+		n := 11 + g.r.Intn(3)
+		vals := make([]int, n+3)
+		for i := range vals {
+			vals[i] = i
+		}
+		for i := len(vals) - 1; i > 0; i-- {
+			j := g.r.Intn(i + 1)
+			vals[i], vals[j] = vals[j], vals[i]
+		}
+		st := &stmt{k: "sw", x: g.pickVar()}
+		for i := 0; i < n; i++ {
+			var body []*stmt
+			if g.r.Chance(1, 3) {
+				body = append(body, g.simple())
+			}
+			body = append(body, &stmt{k: "iow", x: g.r.Intn(g.p.nout), e: &expr{k: "lit", n: 100 + i}})
+			st.cases = append(st.cases, swCase{val: &expr{k: "lit", n: vals[i]}, body: body})
+			g.p.nstmts++
+		}
+		if g.r.Bool() {
+			st.el = []*stmt{{k: "iow", x: g.r.Intn(g.p.nout), e: &expr{k: "lit", n: 99}}}
+		}
+		g.pre = append(g.pre, &stmt{k: "asg", x: st.x, e: &expr{k: "lit", n: vals[10+g.r.Intn(n-10)]}})
+		g.p.tags["switch"], g.p.tags["switch-long"] = true, true
+		return st
+	}
 	if nest < 3 && g.r.Chance(1, 70) {
 		// switch on a variable, distinct literal cases, default last. Clauses hold simple statements,
 		// now and then a nested if / for / switch (no declaration directly in a clause: bondgo would put
@@ -336,6 +375,8 @@ func (g *gen) stmt(nest int, inIf bool, inLoop bool) *stmt {
 							saved[k] = v
 						}
 						n := g.stmt(nest+1, true, false)
+						b = append(b, g.pre...)
+						g.pre = nil
 						if n.k == "def" || n.k == "decl" {
 							// undo the declaration: the variable indices stay consecutive
 							g.p.names, g.scope = g.p.names[:markN], g.scope[:markS]
@@ -566,7 +607,7 @@ func genProgW(r *common.Rng, maxstmts int, w int) *prog {
 	}
 	g.here = []map[string]bool{top}
 	for g.budget > 0 {
-		p.body = append(p.body, g.stmt(0, false, false))
+		p.body = append(p.body, g.stmts(0, false, false)...)
 	}
 	return p
 }
@@ -1748,6 +1789,7 @@ type chanProg struct {
 	rvals    []int   // the value each receive delivers under Go semantics
 	stmts    []chanStmt
 	useIn    bool // main declares the input i0 (read next to a receive)
+	isSel    bool // main waits with `select` (genSelProg)
 	expected []int
 }
 
@@ -1849,7 +1891,74 @@ func genChanProg(r *common.Rng) *chanProg {
 	return cp
 }
 
+// genSelProg: one producer with two channels sending a fixed sequence, main waits with `select` — both
+// channels in every select, `case v = <-c:` into a RAM variable and into a register variable (which
+// variable listens on which channel changes from select to select). One sender, sequential: exactly one
+// case can happen at a time, so Go's result is determined.
+func genSelProg(r *common.Rng) *chanProg {
+	cp := &chanProg{w: []int{8, 16, 32}[r.Intn(3)], nch: 2 + r.Intn(2), isSel: true}
+	perm := []int{0, 1, 2}[:cp.nch]
+	for i := len(perm) - 1; i > 0; i-- {
+		j := r.Intn(i + 1)
+		perm[i], perm[j] = perm[j], perm[i]
+	}
+	cp.prods = [][]int{{perm[0], perm[1]}}
+	n := 2 + r.Intn(4)
+	var sd, vs []int
+	for i := 0; i < n; i++ {
+		sd = append(sd, r.Intn(2))
+		vs = append(vs, (i*37+11+r.Intn(5))%200+1)
+	}
+	cp.sends, cp.values = [][]int{sd}, [][]int{vs}
+	mask := (uint64(1) << uint(cp.w)) - 1
+	for i := 0; i < n; i++ {
+		st := chanStmt{form: r.Intn(4), k: r.Intn(3)} // form bit 0: which variable listens on the producer's first channel; bit 1: case order
+		cp.stmts = append(cp.stmts, st)
+		cp.expected = append(cp.expected, int((uint64(vs[i])+uint64(st.k))&mask))
+	}
+	return cp
+}
+
+func (cp *chanProg) selSource() string {
+	var sb strings.Builder
+	sb.WriteString("package main\n\nimport (\n\t\"bondgo\"\n)\n\n")
+	fmt.Fprintf(&sb, "func prod0(p0 chan uint%d, p1 chan uint%d) {\n", cp.w, cp.w)
+	for i, k := range cp.sends[0] {
+		fmt.Fprintf(&sb, "\tp%d <- %d\n", k, cp.values[0][i])
+	}
+	sb.WriteString("}\n\nfunc main() {\n\tvar o0 bondgo.Output\n")
+	for c := 0; c < cp.nch; c++ {
+		fmt.Fprintf(&sb, "\tvar c%d chan uint%d\n", c, cp.w)
+	}
+	fmt.Fprintf(&sb, "\tvar x uint%d\n\tvar reg_y uint%d\n\to0 = bondgo.Make(bondgo.Output, 1)\n", cp.w, cp.w)
+	fmt.Fprintf(&sb, "\tgo prod0(c%d, c%d)\n", cp.prods[0][0], cp.prods[0][1])
+	for _, st := range cp.stmts {
+		vars := []string{"x", "reg_y"}
+		if st.form&1 == 1 {
+			vars = []string{"reg_y", "x"}
+		}
+		cases := []int{0, 1}
+		if st.form&2 == 2 {
+			cases = []int{1, 0}
+		}
+		sb.WriteString("\tselect {\n")
+		for _, ci := range cases {
+			e := vars[ci]
+			if st.k > 0 {
+				e = fmt.Sprintf("%s + %d", vars[ci], st.k)
+			}
+			fmt.Fprintf(&sb, "\tcase %s = <-c%d:\n\t\tbondgo.IOWrite(o0, %s)\n", vars[ci], cp.prods[0][ci], e)
+		}
+		sb.WriteString("\t}\n")
+	}
+	sb.WriteString("}\n")
+	return sb.String()
+}
+
 func (cp *chanProg) source() string {
+	if cp.isSel {
+		return cp.selSource()
+	}
 	var sb strings.Builder
 	sb.WriteString("package main\n\nimport (\n\t\"bondgo\"\n)\n\n")
 	for g, chs := range cp.prods {
@@ -1964,11 +2073,15 @@ type mproc struct {
 	pc       int
 	regs     map[string]uint64
 	mem      map[string]uint64
-	waiting  bool
-	pendW    bool   // a wanted write (wwr) / read (wrd) is posted
-	pendR    bool
-	pendReg  string
-	pendGlob int
+	waiting bool
+	pend    []pendOp // the wanted writes (wwr) / reads (wrd) posted since the last wait, in posting order
+	chwReg  string   // `chw r`: r receives the index (posting order) of the operation that happened
+}
+
+type pendOp struct {
+	write bool
+	reg   string
+	glob  int
 }
 
 // runChannels interprets the emitted code of all processors.  The local channel chK of processor p is the
@@ -2002,14 +2115,30 @@ func runChannels(progs [][]string, locmap [][]int, req map[int][]int, w int, max
 	for step := 0; step < maxSteps; step++ {
 		progress := false
 		// rendezvous
+		// (a `chw` after several posted operations is a select: the first pair that matches happens, the
+		// other posted operations of both sides are withdrawn)
 		for a := range ps {
 			for b := range ps {
-				if a != b && ps[a].waiting && ps[b].waiting && ps[a].pendW && ps[b].pendR &&
-					ps[a].pendGlob == ps[b].pendGlob && attached(a, ps[a].pendGlob) && attached(b, ps[b].pendGlob) {
-					ps[b].regs[ps[b].pendReg] = ps[a].regs[ps[a].pendReg]
-					ps[a].waiting, ps[b].waiting = false, false
-					ps[a].pendW, ps[b].pendR = false, false
-					progress = true
+				if a == b || !ps[a].waiting || !ps[b].waiting {
+					continue
+				}
+			match:
+				for ia, oa := range ps[a].pend {
+					for ib, ob := range ps[b].pend {
+						if oa.write && !ob.write && oa.glob == ob.glob && attached(a, oa.glob) && attached(b, ob.glob) {
+							ps[b].regs[ob.reg] = ps[a].regs[oa.reg]
+							if ps[a].chwReg != "" {
+								ps[a].regs[ps[a].chwReg] = uint64(ia)
+							}
+							if ps[b].chwReg != "" {
+								ps[b].regs[ps[b].chwReg] = uint64(ib)
+							}
+							ps[a].waiting, ps[b].waiting = false, false
+							ps[a].pend, ps[b].pend = nil, nil
+							progress = true
+							break match
+						}
+					}
 				}
 			}
 		}
@@ -2046,11 +2175,24 @@ func runChannels(progs [][]string, locmap [][]int, req map[int][]int, w int, max
 				if err != nil || k >= len(locmap[pi]) {
 					return outs, fmt.Sprintf("error:processor_%d_uses_%s_but_the_source_attaches_it_to_%d_channels", pi, f[2], len(locmap[pi]))
 				}
-				p.pendReg, p.pendGlob = f[1], locmap[pi][k]
-				p.pendW, p.pendR = f[0] == "wwr", f[0] == "wrd"
+				p.pend = append(p.pend, pendOp{write: f[0] == "wwr", reg: f[1], glob: locmap[pi][k]})
 			case "chw":
-				if p.pendW || p.pendR {
+				if len(p.pend) > 0 {
 					p.waiting = true
+					p.chwReg = ""
+					if len(f) > 1 {
+						p.chwReg = f[1]
+					}
+				}
+			case "inc":
+				p.regs[f[1]] = (p.regs[f[1]] + 1) & mask
+			case "dec":
+				p.regs[f[1]] = (p.regs[f[1]] - 1) & mask
+			case "j", "jz":
+				t, _ := strconv.Atoi(f[len(f)-1])
+				if f[0] == "j" || p.regs[f[1]] == 0 {
+					p.pc = t
+					continue
 				}
 			default:
 				return outs, "error:unexpected_instruction_" + f[0]
@@ -2060,7 +2202,7 @@ func runChannels(progs [][]string, locmap [][]int, req map[int][]int, w int, max
 		if !progress {
 			for pi, p := range ps {
 				if p.waiting {
-					return outs, fmt.Sprintf("deadlock:processor_%d_waits_on_channel_%d", pi, p.pendGlob)
+					return outs, fmt.Sprintf("deadlock:processor_%d_waits_on_channel_%d", pi, p.pend[0].glob)
 				}
 			}
 			return outs, ""
@@ -2212,6 +2354,9 @@ func main() {
 		r := common.NewRng(seed*104729 + 77)
 		for id := 0; id < n; id++ {
 			cp := genChanProg(r)
+			if id%4 == 3 {
+				cp = genSelProg(r)
+			}
 			src := cp.source()
 			os.WriteFile(filepath.Join(dir, fmt.Sprintf("ch%d.go", id)), []byte(src), 0o644)
 			chanLocmap = make([][]int, 1+len(cp.prods))
